@@ -382,6 +382,9 @@ Definition auth_accepts (V : vdescr) (sh : vshape) (eu ep ek : bool) : bool :=
 Definition clean_auth (eu ep ek : bool) : bool :=
   (negb eu && negb ep && ek) || (eu && ep && negb ek).
 
+(* a credential setting is configured when its value is not the empty string *)
+Definition configured (c : config) (n : text) : Prop := is_empty_val (cget c n) = false.
+
 (* the literal reading: exactly one of {user and password, cookie} is configured *)
 Definition exactly_one_auth (eu ep ek : bool) : bool := xorb (negb eu && negb ep) (negb ek).
 
